@@ -49,6 +49,64 @@ func init() {
 	}
 	trustedSpecs["fmt.Sprint"] = trustedSpecs["fmt.Sprintf"]
 	initTimeSpecs()
+	// sync.Pool: Get returns an object of the shape New produces, with arbitrary (recycled) contents
+	trustedSpecs["(*sync.Pool).Get"] = func(ex *Exec, fr *Frame, st *State, fn *ssa.Function, args []Val, pos token.Pos) []Val {
+		pool := st.load(ex.locOf(args[0]))
+		newF, _ := fieldByName(pool, "New")
+		if f, ok := ex.closureFn[newF.Term()]; ok {
+			rs := ex.callStatic(fr, st, f, nil, ex.closures[newF.Term()], pos)
+			if len(rs) == 1 && len(rs[0].L) == 2 && rs[0].L[0].Op == "intconst" && rs[0].L[0].Name != "0" {
+				ct := ex.ld.tagType(rs[0].L[0])
+				if _, isPtr := ct.Underlying().(*types.Pointer); isPtr {
+					ex.havocReachable(st, scalar(ct, rs[0].L[1]), 0)
+				}
+			}
+			return rs
+		}
+		return ex.freshResults(st, fn.Signature, "poolget")
+	}
+	trustedSpecs["(*sync.Pool).Put"] = func(ex *Exec, fr *Frame, st *State, fn *ssa.Function, args []Val, pos token.Pos) []Val {
+		return nil
+	}
+	for _, n := range []string{"Sqrt", "Abs", "Ceil", "Floor", "Exp", "Log"} {
+		name := n
+		trustedSpecs["math."+name] = func(ex *Exec, fr *Frame, st *State, fn *ssa.Function, args []Val, pos token.Pos) []Val {
+			return []Val{scalar(types.Typ[types.Float64], App("math_"+name, F64S, args[0].Term()))}
+		}
+	}
+	for _, n := range []string{"Max", "Min", "Pow"} {
+		name := n
+		trustedSpecs["math."+name] = func(ex *Exec, fr *Frame, st *State, fn *ssa.Function, args []Val, pos token.Pos) []Val {
+			return []Val{scalar(types.Typ[types.Float64], App("math_"+name, F64S, args[0].Term(), args[1].Term()))}
+		}
+	}
+	atomicAdd := func(ex *Exec, fr *Frame, st *State, fn *ssa.Function, args []Val, pos token.Pos) []Val {
+		loc := ex.locOf(args[0])
+		cur := st.load(loc)
+		nv := scalar(cur.T, BVBin("bvadd", cur.Term(), args[1].Term()))
+		st.store(loc, nv)
+		ex.logTrusted(st, "atomic."+fn.Name(), args, []Val{nv}, pos)
+		return []Val{scalar(fn.Signature.Results().At(0).Type(), nv.Term())}
+	}
+	atomicLoad := func(ex *Exec, fr *Frame, st *State, fn *ssa.Function, args []Val, pos token.Pos) []Val {
+		v := st.load(ex.locOf(args[0]))
+		v.T = fn.Signature.Results().At(0).Type()
+		return []Val{v}
+	}
+	atomicStore := func(ex *Exec, fr *Frame, st *State, fn *ssa.Function, args []Val, pos token.Pos) []Val {
+		st.store(ex.locOf(args[0]), Val{T: ex.locOf(args[0]).T, L: args[1].L})
+		return nil
+	}
+	for _, t := range []string{"Uint32", "Uint64", "Int32", "Int64"} {
+		trustedSpecs["sync/atomic.Add"+t] = atomicAdd
+		trustedSpecs["sync/atomic.Load"+t] = atomicLoad
+		trustedSpecs["sync/atomic.Store"+t] = atomicStore
+	}
+}
+
+// logTrusted records a call to a trusted external function in the call log (queryable from contracts).
+func (ex *Exec) logTrusted(st *State, key string, args, results []Val, pos token.Pos) {
+	ex.callLog = append(ex.callLog, &CallRec{Guard: st.PC(), Key: key, Args: args, Results: results, Pre: st.clone(), Seq: len(ex.callLog), Pos: pos})
 }
 
 // ---- package time: an instant is a signed 64-bit count of nanoseconds since the Unix epoch;
